@@ -287,4 +287,117 @@ theorem concRunFast_eq (hw : List UInt8) (s : Conc) (acts : List Act) : concRunF
   unfold concRunFast
   rw [← revOut_run, revOut_revOut]
 
+/-! ### a wall clock that never steps back: what each goroutine sees -/
+
+theorem readingLe_refl (a : Int × Nat) : readingLe a a := Or.inr ⟨rfl, Nat.le_refl _⟩
+
+theorem readingLe_trans (a b c : Int × Nat) (h1 : readingLe a b) (h2 : readingLe b c) : readingLe a c := by
+  unfold readingLe at *; omega
+
+/-- along the schedule the environment only moves the wall clock forward, inside the representable range -/
+def WallOk (w : Int × Nat) : List Act → Prop
+  | [] => True
+  | .wall t :: as => readingLe w t ∧ Representable t.1 t.2 ∧ WallOk t as
+  | .now _ :: as => WallOk w as
+  | .inc _ :: as => WallOk w as
+
+structure MonoInv (t0 : Int × Nat) (s : Conc) : Prop where
+  wallRep : Representable s.wall.1 s.wall.2
+  wallLo : readingLe t0 s.wall
+  heldLe : ∀ p ∈ s.held, readingLe p.2 s.wall ∧ readingLe t0 p.2 ∧ Representable p.2.1 p.2.2
+  outLe : ∀ r ∈ s.out, readingLe r.reading s.wall ∧ readingLe t0 r.reading ∧ Representable r.reading.1 r.reading.2 ∧
+    timestamp r.uuid = tick r.reading
+  heldOut : ∀ p ∈ s.held, ∀ r ∈ s.out, r.g = p.1 → readingLe r.reading p.2
+  pw : s.out.Pairwise (fun a b => a.g = b.g → readingLe a.reading b.reading)
+
+theorem heldOf_mem (h : List (Nat × (Int × Nat))) (g : Nat) (r : Int × Nat) (e : heldOf h g = some r) : (g, r) ∈ h := by
+  unfold heldOf at e
+  cases hf : h.find? (·.1 == g) with
+  | none => simp [hf] at e
+  | some p =>
+    simp only [hf, Option.map_some, Option.some.injEq] at e
+    have hm := List.mem_of_find?_eq_some hf
+    have hp := List.find?_some hf
+    have : p.1 = g := by simpa using hp
+    have : p = (g, r) := by cases p; simp_all
+    rw [← this]; exact hm
+
+theorem monoInv_step (hw : List UInt8) (t0 : Int × Nat) (s : Conc) (a : Act) (h : MonoInv t0 s)
+    (hok : WallOk s.wall [a]) : MonoInv t0 (concStep hw s a) := by
+  obtain ⟨wr, wl, hl, ol, ho, pw⟩ := h
+  cases a with
+  | wall t =>
+    obtain ⟨hle, hrep, _⟩ := hok
+    exact ⟨hrep, readingLe_trans _ _ _ wl hle,
+      fun p hp => ⟨readingLe_trans _ _ _ (hl p hp).1 hle, (hl p hp).2⟩,
+      fun r hr => ⟨readingLe_trans _ _ _ (ol r hr).1 hle, (ol r hr).2⟩, ho, pw⟩
+  | now g =>
+    simp only [concStep]
+    split
+    · exact ⟨wr, wl, hl, ol, ho, pw⟩
+    · refine ⟨wr, wl, ?_, ol, ?_, pw⟩
+      · intro p hp
+        rcases List.mem_cons.mp hp with rfl | hp
+        · exact ⟨readingLe_refl _, wl, wr⟩
+        · exact hl p hp
+      · intro p hp r hr hg
+        rcases List.mem_cons.mp hp with rfl | hp
+        · exact (ol r hr).1
+        · exact ho p hp r hr hg
+  | inc g =>
+    simp only [concStep]
+    split
+    · exact ⟨wr, wl, hl, ol, ho, pw⟩
+    · rename_i r hr
+      have hmem := heldOf_mem _ _ _ hr
+      have hts : timestamp (timeUUID s.clockSeq hw r).1 = tick r := by
+        simp only [timeUUID, uuidFromTime, timestamp_with_mod, tick]
+      refine ⟨wr, wl, ?_, ?_, ?_, ?_⟩
+      · intro p hp; exact hl p ((List.mem_filter.mp hp).1)
+      · intro x hx
+        rcases List.mem_append.mp hx with hx | hx
+        · exact ol x hx
+        · have : x = ⟨g, r, (timeUUID s.clockSeq hw r).1⟩ := by simpa using hx
+          subst this
+          exact ⟨(hl _ hmem).1, (hl _ hmem).2.1, (hl _ hmem).2.2, hts⟩
+      · intro p hp x hx hg
+        have hp' := (List.mem_filter.mp hp).1
+        have hpne : p.1 ≠ g := by
+          have := (List.mem_filter.mp hp).2
+          simpa using this
+        rcases List.mem_append.mp hx with hx | hx
+        · exact ho p hp' x hx hg
+        · have : x = ⟨g, r, (timeUUID s.clockSeq hw r).1⟩ := by simpa using hx
+          subst this
+          exact absurd hg.symm hpne
+      · rw [List.pairwise_append]
+        refine ⟨pw, List.pairwise_singleton _ _, ?_⟩
+        intro x hx y hy hg
+        have : y = ⟨g, r, (timeUUID s.clockSeq hw r).1⟩ := by simpa using hy
+        subst this
+        exact ho _ hmem x hx hg
+
+theorem monoInv_run (hw : List UInt8) (t0 : Int × Nat) (acts : List Act) : ∀ s : Conc, MonoInv t0 s →
+    WallOk s.wall acts → MonoInv t0 (concRun hw s acts) ∧ readingLe s.wall (concRun hw s acts).wall := by
+  induction acts with
+  | nil => intro s h _; exact ⟨h, readingLe_refl _⟩
+  | cons a as ih =>
+    intro s h hok
+    have h1 : WallOk s.wall [a] := by
+      cases a with
+      | wall t => exact ⟨hok.1, hok.2.1, trivial⟩
+      | now g => trivial
+      | inc g => trivial
+    have hw' : WallOk (concStep hw s a).wall as ∧ readingLe s.wall (concStep hw s a).wall := by
+      cases a with
+      | wall t => exact ⟨hok.2.2, hok.1⟩
+      | now g =>
+        have : (concStep hw s (.now g)).wall = s.wall := by simp only [concStep]; split <;> rfl
+        rw [this]; exact ⟨hok, readingLe_refl _⟩
+      | inc g =>
+        have : (concStep hw s (.inc g)).wall = s.wall := by simp only [concStep]; split <;> rfl
+        rw [this]; exact ⟨hok, readingLe_refl _⟩
+    obtain ⟨r1, r2⟩ := ih _ (monoInv_step hw t0 s a h h1) hw'.1
+    exact ⟨r1, readingLe_trans _ _ _ hw'.2 r2⟩
+
 end Uuid
